@@ -1552,7 +1552,8 @@ def check_unit(name: str, variant: Optional[str] = None, rlimit: Optional[float]
         for ch in unit.chunks:
             if ch.origin != "repo":
                 continue
-            precise = vstd_precise_names()
+            # functions with a contract of their own: vstd's (concrete types) and the unit's `assume_specification`s
+            precise = vstd_precise_names() | set(re.findall(r"assume_specification[^\[]*\[[^\]]*?::\s*([A-Za-z_][A-Za-z0-9_]*)\s*\]", text))
             # `matches!(e, pat)` is sugar for a `match`: nothing about it is left to a library contract
             new = sorted(x for x in (callee_vocabulary(ch.text) - locked) if x[1] not in precise and x != ("!", "matches"))
             if not new:
